@@ -397,10 +397,40 @@ func (c *checker) badPush(i int) {
 	if !isHTTP(c.kind) {
 		kinds = append(kinds, "extended-content")
 	}
+	kinds = append(kinds, "descriptor-of-held-blob", "descriptor-of-held-blob-same-length")
 	kind := kinds[i%len(kinds)]
 	d := desc(content)
 	body := content
 	declared := string(d.Digest)
+	if strings.HasPrefix(kind, "descriptor-of-held-blob") {
+		// the repository already holds X (pushed honestly, under the same media type); now other
+		// bytes arrive under exactly X's descriptor: refused, and X stays what it was
+		if _, err := c.reg.PushBlob(bg, repo, d, bytes.NewReader(content)); err != nil {
+			run.Count("valid_push_rejected", 1)
+			return
+		}
+		body = append([]byte("other bytes under the held descriptor "), content...)
+		if kind == "descriptor-of-held-blob-same-length" {
+			body = bytes.ToUpper(content)
+			if bytes.Equal(body, content) {
+				body = append([]byte{'#'}, content[1:]...)
+			}
+		}
+		w := map[string]any{"stack": c.kind, "bad_push": kind, "declared_digest": declared, "declared_size": d.Size, "body_len": len(body)}
+		run.Eval(1)
+		var perr error
+		if !run.Case("total/bad-push/"+c.kind, w, func() { _, perr = c.reg.PushBlob(bg, repo, d, bytes.NewReader(body)) }) {
+			return
+		}
+		run.Count("bad_pushes", 1)
+		run.Distinct(fmt.Sprintf("bad-push/%s/%s", c.kind, kind))
+		if perr == nil {
+			run.Violation(fmt.Sprintf("bad-push-accepted/%s/%s", c.kind, kind), "a push of other bytes under the descriptor of a blob the repository already holds was accepted", w)
+		}
+		r, gerr := c.reg.GetBlob(bg, repo, d.Digest)
+		c.completeRead("GetBlob-after-refused-repush", r, gerr, content, declared, w)
+		return
+	}
 	switch kind {
 	case "digest-of-other-bytes":
 		d.Digest = ociregistry.Digest(model.Digest(other))
